@@ -21,7 +21,7 @@ import (
 	"github.com/atlassian/gostatsd/pkg/stats"
 )
 
-const (
+var (
 	refresh = 10 * time.Second
 	ttl     = 15 * time.Second
 	negTTL  = 5 * time.Second
@@ -35,10 +35,11 @@ type cfg struct {
 	Peek     bool
 	Emit     bool
 	Outcomes int // number of provider outcome alternatives enumerated per call (1 = always found)
+	SlowRefresh bool // refresh period 20s with TTL 5s: entries are long expired when the refresh happens
 }
 
 func (c cfg) String() string {
-	return fmt.Sprintf("%s-b%d-idle%v-t%d-p%v-e%v-o%d", strings.Join(c.Submit, ""), c.MaxBatch, c.Idle, c.Ticks, c.Peek, c.Emit, c.Outcomes)
+	return fmt.Sprintf("%s-b%d-idle%v-t%d-p%v-e%v-o%d-slow%v", strings.Join(c.Submit, ""), c.MaxBatch, c.Idle, c.Ticks, c.Peek, c.Emit, c.Outcomes, c.SlowRefresh)
 }
 
 type call struct {
@@ -141,6 +142,10 @@ func (s *statser) Gauge(name string, v float64, tags gostatsd.Tags) {
 
 func body(c cfg, r *run) func(*vsched.Exec) {
 	return func(x *vsched.Exec) {
+		refresh, ttl, negTTL = 10*time.Second, 15*time.Second, 5*time.Second
+		if c.SlowRefresh {
+			refresh, ttl, negTTL = 20*time.Second, 5*time.Second, 5*time.Second
+		}
 		*r = run{c: c, answers: map[gostatsd.Source]int{}, lastGood: map[gostatsd.Source]string{}, seenPositive: map[gostatsd.Source]bool{}, everGood: map[gostatsd.Source]map[string]bool{}, callObj: new(int)}
 		ctx, mock := fx.NewClock(context.Background())
 		ccp := cloudprovider.NewCachedCloudProvider(fx.Quiet(), rate.NewLimiter(rate.Inf, 1), provider{r}, gostatsd.CacheOptions{CacheRefreshPeriod: refresh, CacheEvictAfterIdlePeriod: c.Idle, CacheTTL: ttl, CacheNegativeTTL: negTTL})
@@ -343,14 +348,15 @@ func check(c cfg, r *run, outcomes map[string]struct{}) func(*vsched.Exec, vsche
 func configs() []cfg {
 	never := 1000 * time.Hour
 	cs := []cfg{
-		{[]string{"a", "b"}, 2, never, 0, true, false, 3},
-		{[]string{"a", "a"}, 2, never, 1, false, true, 2},
-		{[]string{"a"}, 1, never, 2, true, false, 3},
-		{[]string{"a", "b"}, 1, 12 * time.Second, 2, false, true, 2},
-		{[]string{"a"}, 2, 12 * time.Second, 2, true, true, 2},
+		{[]string{"a", "b"}, 2, never, 0, true, false, 4, false},
+		{[]string{"a"}, 1, never, 3, true, false, 2, true},
+		{[]string{"a", "a"}, 2, never, 1, false, true, 2, false},
+		{[]string{"a"}, 1, never, 2, true, false, 3, false},
+		{[]string{"a", "b"}, 1, 12 * time.Second, 2, false, true, 2, false},
+		{[]string{"a"}, 2, 12 * time.Second, 2, true, true, 2, false},
 	}
 	if vrt.Thorough() {
-		cs = append(cs, cfg{[]string{"a", "b", "a"}, 2, never, 1, true, true, 4}, cfg{[]string{"a", "b"}, 2, 12 * time.Second, 2, true, true, 4}, cfg{[]string{"a", "b", "c"}, 2, never, 2, false, false, 3})
+		cs = append(cs, cfg{[]string{"a", "b", "a"}, 2, never, 1, true, true, 4, false}, cfg{[]string{"a", "b"}, 2, 12 * time.Second, 2, true, true, 4, false}, cfg{[]string{"a", "b", "c"}, 2, never, 2, false, false, 3, false}, cfg{[]string{"a", "b"}, 2, never, 3, true, true, 3, true})
 	}
 	return cs
 }
